@@ -1,5 +1,6 @@
 """C14 — wildcards enumerate children / descendants once, tolerate misses, terminate."""
 from pyvc.verify import Post, Case, Equiv, NativeFacts
+from contracts import extra
 from contracts import common, C02, C12
 
 PROPERTY = 'C14'
@@ -40,7 +41,7 @@ def contracts():
         ("'a.**.*'", "Path.from_text('a.**.*')", lambda f: ops_of('a.**.*')[1:] == ('P', 'a', 'X', None, 'x', None)),
         ("'a*'", "a segment that merely contains a star is a plain segment", lambda f: ops_of('a*.b')[1:] == ('P', 'a*', 'P', 'b')),
     ], func='core.Path.from_text'))
-    from contracts import extra
+    pass
     cs += common.shared(extra, ['core.Path.from_text', 'core.TType.__stars__'])
     # "Assign/Delete through wildcards act on every entry": the per-entry application (contracts shared with C11 / C12)
     from contracts import C11
